@@ -182,6 +182,40 @@ def run_config(exp, seed, workdir):
             del decoded[:]
             calls.clear()
             out_stem = os.path.join(workdir, "out")
+            if ridx == 0 and exp.get("aborted"):
+                # an interrupted first attempt: the voltage source raises on its second request; record() must propagate it
+                # and the recording judged below must be unaffected (it starts from the first input block again)
+                class SourceFailure(Exception):
+                    pass
+                served = []
+                orig_get = src.get_samples
+
+                def failing(n):
+                    if len(served) == 1:
+                        raise SourceFailure("the voltage source fails on its second request")
+                    served.append(int(n))
+                    return orig_get(n)
+                src.get_samples = failing
+                interrupted = False
+                try:
+                    be.record(out_stem, length_mode="num_blocks", digitize=rc["digitize"], verbose=False, header_dict={},
+                              **({} if cfg["req"] == 0 else {"num_blocks": cfg["req"]}))
+                except SourceFailure:
+                    interrupted = True
+                except Exception as e:
+                    raise Div("C14|C12", "source_failure_masked", "SourceFailure", "%s: %s" % (type(e).__name__, str(e)[:150]))
+                finally:
+                    src.get_samples = orig_get
+                # the twin follows the real source through the attempt (interrupted or, for one-request recordings, complete)
+                twin_obj[0].reset_start()
+                if served:
+                    twin_obj[0].get_samples(sum(served))
+                del decoded[:]
+                calls.clear()
+                for fn in os.listdir(workdir):
+                    if fn.startswith("out."):
+                        os.remove(os.path.join(workdir, fn))
+                inst["interrupted_first_attempt"] = interrupted
             try:
                 if cfg["req"] == 0:
                     be.record(out_stem, length_mode="num_blocks", digitize=rc["digitize"], verbose=False, header_dict={})
